@@ -9,6 +9,7 @@
 #include <sys/resource.h>
 #include <sys/stat.h>
 #include <sys/wait.h>
+#include <sys/sysmacros.h>
 #include <unistd.h>
 #include <fcntl.h>
 
@@ -91,7 +92,11 @@ void runFaults(const Opts& o, long idx, CaseLog& log) {
     std::vector<T> ts;
     T t1 = {"missing_directory", dir + "/no/such/dir/x.c3d", true}; ts.push_back(t1);
     T t2 = {"path_is_directory", dir, true}; ts.push_back(t2);
-    T t3 = {"dev_full", "/dev/full", true}; ts.push_back(t3);
+    // a PRIVATE full-device node (char 1:7) inside the work directory: a library under test that renames or unlinks its destination
+    // must not be able to damage the system's /dev/full (we run as root); falls back to /dev/full when mknod is not permitted
+    std::string devfull = dir + "/full_device";
+    if (mknod(devfull.c_str(), S_IFCHR | 0666, makedev(1, 7)) != 0) devfull = "/dev/full";
+    T t3 = {"dev_full", devfull, true}; ts.push_back(t3);
     T t4 = {"empty_path", "", true}; ts.push_back(t4);
     T t5 = {"plain_new_file", dir + "/ok.c3d", false}; ts.push_back(t5);
     T t6 = {"overwrite_existing_longer_file", dir + "/longer.c3d", false}; ts.push_back(t6);
